@@ -79,6 +79,15 @@ def judge(case):
                ('+fields' if s['fields'] else '')
         classes.append('sup=' + form.strip('+'))
     try:
+        for how in case.get('earlier') or []:
+            # an earlier resolve of the same report must not change what a later one delivers
+            classes.append('resolved-before')
+            name, _, rev = how.partition('-')
+            if rev:
+                order = {id(f): i for i, f in enumerate(MAIN_REPORT.feedback + MAIN_REPORT.ignored_feedback)}
+                resolver_fn(name)(priority_key=lambda f: -order.get(id(f), 0))
+            else:
+                resolver_fn(name)()
         final = resolver_fn(rname)()
     except Exception as e:
         import traceback
